@@ -23,7 +23,8 @@ type Level struct {
 	Metrics      []*types.Var          // fields named like the spec's metrics of this level, in struct order
 	ByName       map[string]*types.Var // metric name -> field
 	VerField     *types.Var            // v3 Base only
-	Names        *types.Var            // the unexported set of names seen (map[string]bool)
+	Names        *types.Var            // the unexported set of names seen (map[string]bool, or an unsigned integer used as a bit set)
+	NamesBits    bool                  // Names is a bit set
 	DecodeOne    *types.Func           // the unexported per-token decoder: func (*T) X(string) error
 	Other        []*types.Var          // anything else declared in the struct
 	Problems     []string
@@ -58,6 +59,7 @@ func (f *Facts) Levels(v *spec.Version) ([]*Level, error) {
 			return nil, fmt.Errorf("%s.%s is not a struct type", v.Pkg, sl.Name)
 		}
 		l := &Level{Spec: sl, Version: v, Pkg: pk, Named: named, Struct: st, Lower: lower, ByName: map[string]*types.Var{}}
+		var bits []*types.Var
 		want := map[string]bool{}
 		for _, n := range sl.Names() {
 			want[n] = true
@@ -80,6 +82,9 @@ func (f *Facts) Levels(v *spec.Version) ([]*Level, error) {
 					l.Problems = append(l.Problems, "more than one unexported map[string]bool field")
 				}
 				l.Names = fv
+			case isBitSet(fv):
+				bits = append(bits, fv)
+				l.Other = append(l.Other, fv)
 			default:
 				l.Other = append(l.Other, fv)
 			}
@@ -100,9 +105,22 @@ func (f *Facts) Levels(v *spec.Version) ([]*Level, error) {
 				l.Problems = append(l.Problems, fmt.Sprintf("embedded field %s is not *%s", l.Embedded.Name(), lower.Named.Obj().Name()))
 			}
 		}
+		if l.Names == nil && len(bits) == 1 {
+			// the names seen kept as a bit set: one unexported unsigned integer field (the rules read its tests and
+			// updates through the key function that maps a name to its bit, rules/namesrep.go)
+			l.Names = bits[0]
+			l.NamesBits = true
+			var other []*types.Var
+			for _, fv := range l.Other {
+				if fv != bits[0] {
+					other = append(other, fv)
+				}
+			}
+			l.Other = other
+		}
 		if l.Names == nil {
 			// not a problem of the layout as such: only the rules that reason about the names seen need it
-			l.NamesProblem = "no unexported map[string]bool field recording the names seen (the rules know no other representation of that set)"
+			l.NamesProblem = "no unexported map[string]bool field (or single unsigned-integer bit set) recording the names seen (the rules know no other representation of that set)"
 		}
 		// the per-token decoder, identified by role (unexported, pointer receiver, func(string) error), not by name
 		var cands []*types.Func
@@ -154,6 +172,15 @@ func (f *Facts) FieldOwner() map[*types.Var]string {
 		}
 	}
 	return out
+}
+
+// isBitSet: an unexported field of unsigned integer type.
+func isBitSet(fv *types.Var) bool {
+	if fv.Exported() {
+		return false
+	}
+	b, ok := fv.Type().Underlying().(*types.Basic)
+	return ok && b.Info()&types.IsUnsigned != 0
 }
 
 func isNamesSet(fv *types.Var) bool {
